@@ -44,6 +44,148 @@ GLOBAL_SETTERS_OK = {
 }
 
 
+META_ATTRS = {"device", "dtype", "shape", "ndim"}
+
+
+def _memo_missing(m, f, store, kname, cache_text):
+    """inputs of the value stored by `store` (a statement `<cache>[kname] = value` of function f) that the key does not determine.  Attribute-granular for tensor metadata: a
+    key component `x.device` covers uses `x.device` only, not the values of x.  Control dependence counts (a value built under `if flag:` depends on flag).  Reads of the cache
+    itself and of the looked-up entry are not inputs."""
+    if isinstance(kname, ast.AST):
+        kexpr, kname = kname, "<key written in place>"
+    else:
+        kdefs = [st for st in ast.walk(f) if isinstance(st, ast.Assign) and len(st.targets) == 1 and norm(st.targets[0]) == kname]
+        if not kdefs:
+            return {"<key definition not found>"}
+        kexpr = kdefs[0].value
+
+    def uses(e):
+        """(full names, {(name, meta attr)}) read by expression e"""
+        full, meta = set(), set()
+        called = {c.func.id for c in calls_in(e) if isinstance(c.func, ast.Name)}
+        skip = set()
+        for n in ast.walk(e):
+            if isinstance(n, ast.Attribute) and isinstance(n.value, ast.Name) and n.attr in META_ATTRS:
+                meta.add((n.value.id, n.attr))
+                skip.add(id(n.value))
+            if isinstance(n, (ast.Attribute, ast.Subscript, ast.Call)) and norm(n).startswith(cache_text):
+                for x in ast.walk(n):
+                    skip.add(id(x))
+        for n in ast.walk(e):
+            if isinstance(n, ast.Name) and id(n) not in skip and n.id not in called and n.id not in ("torch", "np", "math", "id", "tuple", "frozenset", "sorted", "self", "None", "True", "False"):
+                full.add(n.id)
+        return full, meta
+    kfull, kmeta = uses(kexpr)
+    vfull, vmeta = uses(store.value)
+    vfull -= {kname}
+    inputs = {}      # local -> (full names, meta uses) it is computed from
+    for st in ast.walk(f):
+        if isinstance(st, ast.Assign):
+            tgts, val_ = st.targets, st.value
+        elif isinstance(st, ast.AugAssign):
+            tgts, val_ = [st.target], st.value
+        else:
+            continue
+        if isinstance(val_, ast.Call) and norm(val_).startswith(cache_text):
+            continue        # the memo lookup itself
+        cf, cm = set(), set()
+        cur_ = m.parents.get(st)
+        while cur_ is not None and cur_ is not f:
+            src = cur_.test if isinstance(cur_, (ast.If, ast.While)) else cur_.iter if isinstance(cur_, ast.For) else None
+            if src is not None:
+                a, b = uses(src)
+                cf |= a
+                cm |= b
+            cur_ = m.parents.get(cur_)
+        vf, vm = uses(val_)
+        for t_ in tgts:
+            for e_ in (t_.elts if isinstance(t_, ast.Tuple) else [t_]):
+                b_ = e_
+                while isinstance(b_, (ast.Subscript, ast.Attribute)):
+                    b_ = b_.value
+                if isinstance(b_, ast.Name) and b_.id not in (kname, "self"):
+                    d = inputs.setdefault(b_.id, (set(), set()))
+                    d[0].update(vf | cf)
+                    d[1].update(vm | cm)
+    for st in ast.walk(f):
+        if isinstance(st, ast.For):
+            a, b = uses(st.iter)
+            for x_ in ast.walk(st.target):
+                if isinstance(x_, ast.Name):
+                    d = inputs.setdefault(x_.id, (set(), set()))
+                    d[0].update(a)
+                    d[1].update(b)
+    # the looked-up entry (assigned from the cache) is tested by the guard; it is not an input of a freshly computed value
+    looked_up = {norm(st.targets[0]) for st in ast.walk(f) if isinstance(st, ast.Assign) and len(st.targets) == 1 and isinstance(st.value, (ast.Call, ast.Subscript))
+                 and norm(st.value).startswith(cache_text)}
+    derived = set()
+    grew = True
+    while grew:
+        grew = False
+        for nm_, (fu, me) in inputs.items():
+            if nm_ in derived:
+                continue
+            if (fu - {nm_} - looked_up) <= kfull | derived and all(x in kfull | derived or (x, a_) in kmeta or x == nm_ or x in looked_up for x, a_ in me):
+                derived.add(nm_)
+                grew = True
+    missing = {x for x in vfull if x not in kfull | derived}
+    missing |= {f"{x}.{a_}" for x, a_ in vmeta if x not in kfull | derived and (x, a_) not in kmeta}
+    # name the inputs behind the undetermined locals (what the key would have to contain)
+    roots, todo, seen = set(), list(missing), set()
+    while todo:
+        x = todo.pop()
+        if x in seen:
+            continue
+        seen.add(x)
+        ins = inputs.get(x)
+        if ins is None:
+            roots.add(x)
+            continue
+        nxt = {y for y in ins[0] - {x} - looked_up if y not in kfull | derived}
+        if not nxt:
+            roots.add(x)
+        todo.extend(nxt)
+    return roots or missing
+
+
+def _r2_instance_memos(ctx, repo):
+    """instance-level memo tables (`v = self.T.get(key)` ... `if v is None: ... self.T[key] = v`): the key must determine the stored value, otherwise a reused driver returns
+    what an earlier call with another input computed"""
+    n = 0
+    for m in repo.modules("seqm"):
+        for q, f in m.functions.items():
+            for st in ast.walk(f):
+                if not (isinstance(st, ast.Assign) and len(st.targets) == 1 and isinstance(st.targets[0], ast.Subscript)):
+                    continue
+                base = st.targets[0].value
+                if not (isinstance(base, ast.Attribute) and isinstance(base.value, ast.Name) and base.value.id == "self"):
+                    continue
+                cache_text, kname = norm(base), norm(st.targets[0].slice)
+                ktext = {kname, kname.strip("()")}
+                # memo pattern: the same table is looked up with the same key in this function and the store is controlled by a test of the looked-up entry / of key membership
+                lookups = [a for a in ast.walk(f) if isinstance(a, ast.Assign) and len(a.targets) == 1 and isinstance(a.targets[0], ast.Name) and
+                           ((isinstance(a.value, ast.Call) and callee_attr(a.value) == "get" and norm(a.value.func.value) == cache_text and a.value.args and norm(a.value.args[0]).strip("()") in ktext)
+                            or (isinstance(a.value, ast.Subscript) and norm(a.value.value) == cache_text and norm(a.value.slice).strip("()") in ktext))]
+                entry = {a.targets[0].id for a in lookups}
+                guarded = False
+                cur = m.parents.get(st)
+                while cur is not None and cur is not f:
+                    if isinstance(cur, ast.If):
+                        t = norm(cur.test)
+                        if any(f"{e} is None" in t or f"not {e}" in t for e in entry) or f"{kname} not in {cache_text}" in t or (f"{kname} in {cache_text}" in t and st in ast.walk(ast.Module(body=cur.orelse, type_ignores=[]))):
+                            guarded = True
+                    cur = m.parents.get(cur)
+                if not guarded:
+                    continue
+                n += 1
+                missing = _memo_missing(m, f, st, kname if isinstance(st.targets[0].slice, ast.Name) else st.targets[0].slice, cache_text)
+                ctx.check(not missing, "R2", m, st, q, st, f"instance memo `{cache_text}` of {q}: the key determines the stored value",
+                          f"`{short(st, 60)}` memoises on the object under a key that does not determine the value: it depends on {sorted(missing)} "
+                          f"(a reused driver returns what an earlier call with other inputs computed)")
+    return n
+
+
+
 def run(ctx):
     repo = ctx.repo
     ctx.rule("R1", "autograd Functions: backward reads no class state; run-time class attributes are set by the constructor at every apply site")
@@ -80,7 +222,7 @@ def run(ctx):
             if not fm:
                 continue
             reads = [n for n in ast.walk(fm[0]) if isinstance(n, ast.Attribute) and isinstance(n.value, ast.Name) and n.value.id in names | {"cls"}
-                     and isinstance(n.ctx, ast.Load) and not isinstance(m.parents.get(n), ast.Call)]
+                     and isinstance(n.ctx, ast.Load) and not (isinstance(m.parents.get(n), ast.Call) and m.parents.get(n).func is n)]
             reads = [n for n in reads if not (isinstance(m.parents.get(n), ast.Attribute))]
             rt_reads = [n for n in reads if n.attr in _all_written(fn_classes)]
             if meth == "backward":
@@ -217,6 +359,8 @@ def run(ctx):
                               f"`{short(n, 70)}` mutates module-level `{gname}` inside {q} ({why}): results can depend on what ran earlier in the process")
     if n_state < 3:
         raise AnalysisError("module-level caches not found")
+    if _r2_instance_memos(ctx, repo) < 2:
+        raise AnalysisError("instance-level memo tables (_eye_cache, _arange_cache) not found")
     fk = repo.mod("seqm/seqm_functions/fock.py")
     for fn, cache in (("_cached_tensor", "_WEIGHT_CACHE"), ("_cached_index", "_INDEX_CACHE")):
         f = fk.func(fn)
